@@ -92,6 +92,10 @@ fn field_name<'a>(input: &mut &'a [u8]) -> ModalResult<&'a str, InputError<&'a [
     }
 
     let name_bytes = &start[0..pos];
+    // An underscore only ever separates alphanumeric characters: it can't end the name.
+    if !name_bytes.last().is_some_and(u8::is_ascii_alphanumeric) {
+        return Err(ErrMode::Backtrack(ParserError::from_input(input)));
+    }
     *input = &input[pos..];
     Ok(bytes_to_str(name_bytes))
 }
@@ -255,6 +259,10 @@ fn interface_name<'a>(input: &mut &'a [u8]) -> ModalResult<&'a str, InputError<&
     }
 
     let name_bytes = &start[0..pos];
+    // Dots and dashes only ever separate alphanumeric characters: they can't end the name.
+    if !name_bytes.last().is_some_and(u8::is_ascii_alphanumeric) {
+        return Err(ErrMode::Backtrack(ParserError::from_input(input)));
+    }
     *input = &input[pos..];
     Ok(bytes_to_str(name_bytes))
 }
